@@ -140,6 +140,7 @@ func (e *Engine) verifyFunc(fn *ssa.Function, c *Contract) (vc *VC, err error) {
 		}
 		vc.restore(snap)
 	}
+	vc.collectReplayInputs(fr, st)
 	fr.entry = st.clone()
 	res, err := fr.execBody(st)
 	if err != nil {
